@@ -765,10 +765,10 @@ _WIN_PATH_VALUES = ["a", "C:/a/b", "C:\\a\\b", "a\\b", "//host/share/x"]
 _PATTERNS = ["", "a", "a+", "[a-z]*", "(x|y)", "\\d{2}", "é"]
 
 
-def st_value(spec, models=None, budget=2):  # noqa: C901, PLR0911, PLR0912, PLR0915
+def st_value(spec, models=None, budget=2, min_size=0):  # noqa: C901, PLR0911, PLR0912, PLR0915
     """Strategy of canonical value specs for a type spec (``models``/``budget`` steer recursive models)."""
     tag = spec[0]
-    sv = lambda t: st_value(t, models, budget)  # noqa: E731
+    sv = lambda t: st_value(t, models, budget, min_size)  # noqa: E731
     if tag in ("newtype", "annotated", "alias"):
         return sv(spec[1])
     if tag == "int":
@@ -840,8 +840,9 @@ def st_value(spec, models=None, budget=2):  # noqa: C901, PLR0911, PLR0912, PLR0
             or ABC_IMPL[spec[1]]
         if impl in (set, frozenset):
             t = "set" if impl is set else "fset"
-            return st.lists(sv(inner_t), max_size=mx, unique_by=_uniq_key).map(lambda v: {"$": t, "v": v})
-        items = st.lists(sv(inner_t), max_size=mx)
+            return st.lists(sv(inner_t), min_size=min(min_size, mx, 1), max_size=mx, unique_by=_uniq_key)\
+                .map(lambda v: {"$": t, "v": v})
+        items = st.lists(sv(inner_t), min_size=min(min_size, mx), max_size=mx)
         if impl is list:
             return items
         t = "t" if impl is tuple else "deque"
@@ -853,7 +854,8 @@ def st_value(spec, models=None, budget=2):  # noqa: C901, PLR0911, PLR0912, PLR0
     if tag in ("dict", "mapping", "mutablemapping", "defaultdict"):
         t = "dd" if tag == "defaultdict" else "d"
         mx = 0 if (strip(spec[2])[0] == "ref" and budget <= 0) else 3
-        return st.lists(st.tuples(sv(spec[1]), sv(spec[2])), max_size=mx, unique_by=lambda kv: _uniq_key(kv[0])) \
+        return st.lists(st.tuples(sv(spec[1]), sv(spec[2])), min_size=min(min_size, mx, 1), max_size=mx,
+                        unique_by=lambda kv: _uniq_key(kv[0])) \
             .map(lambda items: {"$": t, "v": [list(i) for i in items]})
     if tag == "optional":
         if strip(spec[1])[0] == "ref" and budget <= 0:
@@ -864,9 +866,9 @@ def st_value(spec, models=None, budget=2):  # noqa: C901, PLR0911, PLR0912, PLR0
     if tag == "model":
         m2 = dict(models or {})
         m2[spec[1]["name"]] = spec
-        return _st_model_value(spec, m2, budget)
+        return _st_model_value(spec, m2, budget, min_size)
     if tag == "ref":
-        return _st_model_value(models[spec[1]], models, budget - 1)
+        return _st_model_value(models[spec[1]], models, budget - 1, min_size)
     raise ValueError(tag)
 
 
@@ -887,14 +889,14 @@ def _uniq_key(v):
 
 
 @st.composite
-def _st_model_value(draw, spec, models, budget):
+def _st_model_value(draw, spec, models, budget, min_size=0):
     ms = spec[1]
     fields = {}
     for f in ms["fields"]:
         d = f.get("d")
         if d is not None and draw(st.integers(0, 2)) == 0:
             continue  # leave the default in place / NotRequired key absent
-        fields[f["n"]] = draw(st_value(f["t"], models, budget))
+        fields[f["n"]] = draw(st_value(f["t"], models, budget, min_size))
     return {"$": "obj", "c": ms["name"], "f": fields}
 
 
@@ -961,6 +963,33 @@ def model_key(name: str) -> str:
     return name
 
 
+_LAYOUTS: dict = {}
+
+
+def list_index(ms, f) -> int:
+    """Index of a field in a list layout: declaration order; TypedDict fields are ordered by name (adaptix sorts
+    them deliberately because TypedDict keeps no reliable order across inheritance)."""
+    if ms["kind"] == "typeddict":
+        return sorted(x["n"] for x in ms["fields"]).index(f["n"])
+    return ms["fields"].index(f)
+
+
+class use_layouts:  # noqa: N801
+    """Context manager: ``{model name: {"paths": {field: (key, ...)}} | {"as_list": True}}`` for ref_dump."""
+
+    def __init__(self, layouts):
+        self.layouts = layouts or {}
+
+    def __enter__(self):
+        self.saved = dict(_LAYOUTS)
+        _LAYOUTS.clear()
+        _LAYOUTS.update(self.layouts)
+
+    def __exit__(self, *a):
+        _LAYOUTS.clear()
+        _LAYOUTS.update(self.saved)
+
+
 def ref_dump(spec, value, env: Env):  # noqa: C901, PLR0911, PLR0912
     """The documented outer form ("Dumping to" column etc.)."""
     tag = spec[0]
@@ -1008,15 +1037,36 @@ def ref_dump(spec, value, env: Env):  # noqa: C901, PLR0911, PLR0912
         return ref_dump(case, value, env)
     if tag == "model":
         ms = spec[1]
-        out = {}
+        layout = _LAYOUTS.get(ms["name"])
+        out: Any = {}
+        if layout is not None and layout.get("as_list"):
+            out = [None] * len(ms["fields"])
+        elif layout is not None:
+            # intermediate containers of nested paths are always present in the dump, even when every field below
+            # them is absent (and the loader requires them) -- observed behaviour, consistent between dump and load
+            for f in ms["fields"]:
+                cur = out
+                for k in layout["paths"][f["n"]][:-1]:
+                    cur = cur.setdefault(k, {})
         for f in ms["fields"]:
+            i = list_index(ms, f)
             if ms["kind"] == "typeddict":
                 if f["n"] not in value:
                     continue
                 fv = value[f["n"]]
             else:
                 fv = getattr(value, f["n"])
-            out[model_key(f["n"])] = ref_dump(f["t"], fv, env)
+            dumped = ref_dump(f["t"], fv, env)
+            if layout is None:
+                out[model_key(f["n"])] = dumped
+            elif layout.get("as_list"):
+                out[i] = dumped
+            else:
+                path = layout["paths"][f["n"]]
+                cur = out
+                for k in path[:-1]:
+                    cur = cur.setdefault(k, {})
+                cur[path[-1]] = dumped
         return out
     if tag == "ref":
         ms = env.specs[spec[1]]
